@@ -15,12 +15,20 @@ use std::sync::Arc;
 
 thread_local! {
     static CACHE: RefCell<[u64; 4]> = const { RefCell::new([0; 4]) }; // chunk hit, chunk miss, word hit, word miss
+    static FIRED: RefCell<std::collections::BTreeSet<String>> = const { RefCell::new(std::collections::BTreeSet::new()) };
 }
 
 fn install_sink() {
     harper_core::verif::set_sink(Some(Box::new(|ev| match ev {
         harper_core::verif::Event::ChunkCache { hit, .. } => CACHE.with(|c| c.borrow_mut()[if *hit { 0 } else { 1 }] += 1),
         harper_core::verif::Event::WordCache { hit } => CACHE.with(|c| c.borrow_mut()[if *hit { 2 } else { 3 }] += 1),
+        harper_core::verif::Event::RuleRan { rule, lints, .. } => {
+            if !lints.is_empty() {
+                FIRED.with(|f| {
+                    f.borrow_mut().insert(rule.to_string());
+                })
+            }
+        }
         _ => {}
     })));
 }
@@ -234,6 +242,19 @@ pub fn worker(ctx: &mut Ctx) {
         let langs = *r.pick(&["plain", "md", "both", "both"]);
         let use_wasm = r.chance(1, 4);
         let mut cfg: Vec<(String, Option<bool>)> = Vec::new();
+        // rules worth toggling: those that fire on the pool (found through hook H1)
+        let firing: Vec<String> = {
+            FIRED.with(|f| f.borrow_mut().clear());
+            let mut probe = fresh(&dict, dialect, &cfg);
+            probe.set_all_rules_to(Some(true));
+            for c in pool.iter().take(60) {
+                let _ = guarded(|| probe.lint(&Document::new(c, &PlainEnglish, &dict)));
+            }
+            let mut v: Vec<String> = FIRED.with(|f| f.borrow().iter().cloned().collect());
+            v.sort();
+            v
+        };
+        take_cache();
         let mut long = fresh(&dict, dialect, &cfg);
         let wd = match dialect {
             Dialect::American => harper_wasm::Dialect::American,
@@ -249,7 +270,7 @@ pub fn worker(ctx: &mut Ctx) {
         for step in 0..steps {
             if r.chance(1, 7) {
                 // toggle / set / unset one rule (the same ones come back often)
-                let k = rule_keys[r.below(rule_keys.len().min(60)) * (rule_keys.len() / 60).max(1) % rule_keys.len()].clone();
+                let k = if !firing.is_empty() && r.chance(3, 4) { r.pick(&firing).clone() } else { r.pick(&rule_keys).clone() };
                 let v = *r.pick(&[Some(true), Some(false), None]);
                 cfg.retain(|(kk, _)| *kk != k);
                 cfg.push((k.clone(), v));
